@@ -51,7 +51,8 @@ class Hierarchical:
     def __init__(self, dists_fun, dists_options, max_dist=float('inf'),
                  merge_hook=None, order_hook=None, show_progress=True):
         self.dists_fun = dists_fun
-        self.dists_options = dists_options
+        # Copy, the options are extended in fit and the given dictionary belongs to the caller
+        self.dists_options = dict(dists_options)
         self.max_dist = max_dist
         self.merge_hook = merge_hook
         self.order_hook = order_hook
